@@ -3,7 +3,7 @@ CONSTANTS
   AckMode = "shaped"
   ThrMode = "fixed"
   EmptyMode = "fixed"
-  RstMode = "pinned"
+  RstMode = "fixed"
   CfgSet <- CloseCfgs
   SameCfg = TRUE
   Openers = {"A"}
@@ -11,16 +11,16 @@ CONSTANTS
   Ids = {1}
   Hosts = {"h0"}
   MaxWrites = 2
-  Lens = {1}
+  Lens = {1, 0}
   ReadMax = {4}
-  Closers = {"A"}
-  MuxDroppers = {"A", "B"}
+  Closers = {"A", "B"}
+  MuxDroppers = {}
   Cancellers = {}
   DgSenders = {}
   MaxDgrams = 0
   Binders = {}
   MaxBinds = 0
-  Faults = {"cutsrc", "endsrc", "cutsink", "softcut"}
+  Faults = {}
   AdvMsgs = {}
   MaxAdv = 0
   Bridgers = {}
@@ -28,5 +28,5 @@ CONSTANTS
   MaxCtr = 1
 VIEW View
 CONSTRAINT Bound
-INVARIANTS NoViolation TypeOK AckSound QueueBound InitialCredit ExactlyOne TargetCarried BoundedRetry Released DoneResolved
+INVARIANTS NoViolation TypeOK AckSound QueueBound InitialCredit ExactlyOne TargetCarried BoundedRetry Released DoneResolved NoOrphanWriter
 CHECK_DEADLOCK FALSE
